@@ -185,7 +185,7 @@ func stmts(list []ast.Stmt, out *[]string, expr func(ast.Node)) {
 	}
 }
 
-var rootSkeletonRe = regexp.MustCompile(`^(FileFromJSON|NewReader|NewWriter|NewFile|NewCashLetter|NewBundle|.*Option|UnmarshalJSON|MarshalJSON|setRecordType|setRecordTypes|DecodeImageData|IsFRBCompatibilityModeEnabled|handleIBM1047Compatibility|DecodeEBCDIC|Passthrough|Flush|SetHeader|SetControl|AddCashLetter|AddBundle|GetBundles|GetRoutingNumberSummary|GetCreditItems|parseNumField|parseStringField|stringToBytesField|formatYYYYMMDDDate|parseYYYYMMDDDate|formatSimpleTime|parseSimpleTime|alphaField|numericField|nbsmField|stringField|validSizeInt|validSizeUint|isUpperAlphanumeric|isAlphanumeric|isAlphanumericSpecial|isNumeric)$`)
+var rootSkeletonRe = regexp.MustCompile(`^(FileFromJSON|NewReader|NewWriter|NewFile|NewCashLetter|NewBundle|.*Option|UnmarshalJSON|MarshalJSON|setRecordType|setRecordTypes|DecodeImageData|IsFRBCompatibilityModeEnabled|handleIBM1047Compatibility|DecodeEBCDIC|Passthrough|Flush|Add[A-Z].*|Get[A-Z].*|Set[A-Z].*|parseNumField|parseStringField|stringToBytesField|formatYYYYMMDDDate|parseYYYYMMDDDate|formatSimpleTime|parseSimpleTime|alphaField|numericField|nbsmField|stringField|validSizeInt|validSizeUint|isUpperAlphanumeric|isAlphanumeric|isAlphanumericSpecial|isNumeric)$`)
 
 var skeletonDirs = []string{"client", "cmd/server", "internal/files", "internal/files/v2", "internal/storage", "internal/responder"}
 
